@@ -24,6 +24,7 @@ func (in *Interp) draw(seed int64, st *randStream) Value {
 	name := fmt.Sprintf("draw[%d][%d]", seed, st.k)
 	st.k++
 	v := in.C.Var(name, smt.SNum)
+	in.P.Hint(name, 0.25)
 	in.P.AssumeFact(in, in.C.Le(in.C.Num(0), v))
 	in.P.AssumeFact(in, in.C.Lt(v, in.C.Num(1)))
 	return v
@@ -380,6 +381,7 @@ func (in *Interp) verifrt(name string, args []Value, site ssa.Instruction) (Valu
 		if lo > hi {
 			panic(Infeasible{"empty range for " + args[0].(string)})
 		}
+		p.Hint(args[0].(string), (lo+hi)/2)
 		p.AssumeFact(in, c.Le(c.Num(lo), v))
 		p.AssumeFact(in, c.Le(v, c.Num(hi)))
 		return v, true
